@@ -195,6 +195,10 @@ class Loops:
             w = self.world
             if v.ty in w.classes and w.classes[v.ty].get('iter_field'):
                 return O._elem_type(w.field_type(v.ty, w.classes[v.ty]['iter_field']))
+            if v.ty and v.ty.split(':', 1)[0].split('[', 1)[0] in ('dict', 'enumdict', 'ImmutableDict'):
+                # iterating a dict yields its keys: strings unless the dict is declared with object / int keys (A4)
+                head = v.ty.split(':', 1)[0]
+                return None if ('[obj]' in head or '[int]' in head) else 'str'
             return O._elem_type(v.ty)
         if isinstance(v, PV):
             if v.kind == 'zip':
@@ -657,11 +661,14 @@ class Loops:
         MUT = {'append', 'extend', 'add', 'discard', 'remove', 'update', 'pop', 'setdefault', 'clear', 'insert', 'popitem'}
 
         def root(n):
+            via_field = False
             while isinstance(n, (ast.Subscript, ast.Attribute)):
                 if isinstance(n, ast.Attribute):
                     fields.add(n.attr)
+                    via_field = True
                 n = n.value
-            if isinstance(n, ast.Name):
+            if isinstance(n, ast.Name) and not via_field:
+                # x[...] = v / x.append(v) changes the value bound to x; obj.field... changes the heap, not the name
                 names.add(n.id)
 
         def tgt(t):
